@@ -92,6 +92,16 @@ def check_simplify(case, sub="simplify"):
     got = guarded(sub, "plain", ops.find_local_clifford_by_matrix, u * np.exp(0.7j))
     if not equiv(mat([NAME[c.__name__] for c in got]), u):
         raise Violation(sub, "wrong-unitary", "find_local_clifford_by_matrix", "plain", str(w))
+    # the returned lists belong to the caller: after editing them the same questions get the same answers
+    if isinstance(out, list) and isinstance(got, list):
+        out.append(ops.SigmaX)
+        got.insert(0, ops.Hadamard)
+        out2 = guarded(sub, "asked_again", ops.simplify_local_clifford, classes_of_word(w))
+        got2 = guarded(sub, "asked_again", ops.find_local_clifford_by_matrix, u)
+        for res, who in ((out2, "simplify_local_clifford"), (got2, "find_local_clifford_by_matrix")):
+            nm = [NAME[c.__name__] for c in res]
+            if nm not in lib() or not equiv(mat(nm), u):
+                raise Violation(sub, "wrong-unitary", who, "asked_again", "%s -> %s after the caller edited an earlier result" % (w, nm))
     pauli = any(equiv(u, sv.GATES[g]) for g in "IXYZ")
     return Info(nontrivial=(not pauli and names != w), classes=["pauli" if pauli else "nonpauli"])
 
